@@ -8,6 +8,7 @@ import (
 	"github.com/DemoHn/Zn/pkg/exec"
 	"github.com/DemoHn/Zn/pkg/syntax"
 	"github.com/DemoHn/Zn/pkg/syntax/zh"
+	"zsym/harness/c03"
 	"zsym/zv"
 )
 
@@ -110,4 +111,31 @@ func isSourceLine(src []rune, q string) bool {
 		}
 	}
 	return false
+}
+
+// H_E2_Mutations: every prefix and every single-character deletion /
+// duplication of the parser corpus (cut position symbolic) through the whole
+// front end including error rendering.
+func H_E2_Mutations() {
+	corpus := c03.Canonical()
+	src := []rune(corpus[zv.Choose(len(corpus))])
+	cut := zv.Int("cut", 0, len(src))
+	mode := zv.Choose(3)
+	var mutated []rune
+	for k := 0; k <= len(src); k++ {
+		if cut == k {
+			switch {
+			case mode == 0:
+				mutated = append([]rune{}, src[:k]...)
+			case k >= len(src):
+				zv.Stop()
+			case mode == 1:
+				mutated = append(append([]rune{}, src[:k]...), src[k+1:]...)
+			default:
+				mutated = append(append(append([]rune{}, src[:k+1]...), src[k]), src[k+1:]...)
+			}
+			break
+		}
+	}
+	checkFrontEnd(mutated, "E2")
 }
